@@ -254,3 +254,57 @@ Theorem C09_source_nonce_never_repeats : forall j k n, N.of_nat (length n) = Non
   exists a b, xl_nonce_iter j (map Z.of_N n) = Some a /\ xl_nonce_iter k (map Z.of_N n) = Some b /\ a <> b.
 Proof. exact xl_nonce_never_repeats. Qed.
 Print Assumptions C09_source_nonce_never_repeats.
+
+(* the SOURCE of the metadata codecs as it is now (gen/Translated.v; the receiver's fields are parameters, the assigned
+   fields are results, the clock time.Now().Unix() is the parameter [now], bytes are Z): sessionStruct.Marshal and
+   dataAckStruct.Marshal write exactly the documented layouts (Wire.marshal_session / marshal_data, the objects of
+   C09_meta_offsets_.. and C09_meta_roundtrip_..) with the stamp uint32(now / 60); sessionStruct.Unmarshal accepts exactly
+   the strings Wire.unmarshal_session accepts whose stamp is within one minute of the receiver's clock, returns their
+   fields, and otherwise returns an error leaving the receiver untouched; it never panics (None) on any byte string *)
+From M Require Import model.KeyTime proofs.TranslatedTimeProofs proofs.TranslatedMetadataProofs.
+Open Scope Z_scope.
+
+Theorem C09_source_marshal_session : forall (m : session_meta) (ts0 now : Z),
+  session_in_range m -> - 2 ^ 63 <= now < 2 ^ 63 ->
+  xl_protocol_sessionStruct_Marshal (Z.of_N (s_proto m)) ts0 (Z.of_N (s_sid m)) (Z.of_N (s_seq m))
+    (Z.of_N (s_status m)) (Z.of_N (s_plen m)) (Z.of_N (s_slen m)) now
+  = (zs (marshal_session (with_ts m (Z.to_N (stamp now)))), stamp now).
+Proof. exact xl_sessionStruct_Marshal_eq_model. Qed.
+Print Assumptions C09_source_marshal_session.
+
+Theorem C09_source_marshal_data : forall (m : data_meta) (ts0 now : Z),
+  data_in_range m -> - 2 ^ 63 <= now < 2 ^ 63 ->
+  xl_protocol_dataAckStruct_Marshal (Z.of_N (d_proto m)) ts0 (Z.of_N (d_mode m)) (Z.of_N (d_sid m)) (Z.of_N (d_seq m))
+    (Z.of_N (d_unack m)) (Z.of_N (d_win m)) (Z.of_N (d_frag m)) (Z.of_N (d_prefix m)) (Z.of_N (d_plen m))
+    (Z.of_N (d_slen m)) (Z.of_N (d_mask m)) (Z.of_N (d_elen m)) (Z.of_N (d_rot m)) now
+  = (zs (marshal_data (with_dts m (Z.to_N (stamp now)))), stamp now).
+Proof. exact xl_dataAckStruct_Marshal_eq_model. Qed.
+Print Assumptions C09_source_marshal_data.
+
+Theorem C09_source_unmarshal_session : forall (b : list N) (p0 t0 i0 q0 c0 l0 x0 now : Z),
+  Forall (fun x => (x < 256)%N) b -> - 2 ^ 63 <= now < 2 ^ 63 ->
+  xl_protocol_sessionStruct_Unmarshal (zs b) p0 t0 i0 q0 c0 l0 x0 now =
+  Some (match unmarshal_session b with
+        | Some m => if within_range32 (stamp now) (Z.of_N (s_ts m)) 1
+                    then (false, Z.of_N (s_proto m), Z.of_N (s_ts m), Z.of_N (s_sid m), Z.of_N (s_seq m),
+                          Z.of_N (s_status m), Z.of_N (s_plen m), Z.of_N (s_slen m))
+                    else (true, p0, t0, i0, q0, c0, l0, x0)
+        | None => (true, p0, t0, i0, q0, c0, l0, x0)
+        end).
+Proof. exact xl_sessionStruct_Unmarshal_eq_model. Qed.
+Print Assumptions C09_source_unmarshal_session.
+
+(* both together: what the source's Marshal writes at the sender's clock, the source's Unmarshal reads back at the
+   receiver's clock - same fields, the sender's stamp - iff the two minute counters are within one *)
+Theorem C09_source_session_roundtrip : forall (m : session_meta) (ts0 ns nr p0 t0 i0 q0 c0 l0 x0 : Z),
+  session_valid m -> - 2 ^ 63 <= ns < 2 ^ 63 -> - 2 ^ 63 <= nr < 2 ^ 63 ->
+  let '(b, ts) := xl_protocol_sessionStruct_Marshal (Z.of_N (s_proto m)) ts0 (Z.of_N (s_sid m)) (Z.of_N (s_seq m))
+                    (Z.of_N (s_status m)) (Z.of_N (s_plen m)) (Z.of_N (s_slen m)) ns in
+  ts = stamp ns /\
+  xl_protocol_sessionStruct_Unmarshal b p0 t0 i0 q0 c0 l0 x0 nr =
+  Some (if within_range32 (stamp nr) (stamp ns) 1
+        then (false, Z.of_N (s_proto m), stamp ns, Z.of_N (s_sid m), Z.of_N (s_seq m), Z.of_N (s_status m),
+              Z.of_N (s_plen m), Z.of_N (s_slen m))
+        else (true, p0, t0, i0, q0, c0, l0, x0)).
+Proof. exact xl_session_marshal_unmarshal. Qed.
+Print Assumptions C09_source_session_roundtrip.
